@@ -536,7 +536,7 @@ def main(tier, seed):
     else:
         nrand = 3000
     progs += small
-    g = pg.ProgGen(rng, max_ops=8 if tier == "quick" else 12, lookups=True)
+    g = pg.ProgGen(rng, max_ops=8 if tier == "quick" else 12, lookups=True, bare_conditions=True)
     for i in range(nrand):
         progs.append(g.program(i))
     for part in pmap("vf.checks.c02", "work", [{"progs": p} for p in chunks(progs, common.NPROC * 6)]):
